@@ -10,6 +10,7 @@ import (
 	"fmt"
 	"os"
 	"sort"
+	"strings"
 	"sync"
 	"time"
 
@@ -71,6 +72,15 @@ func (r *Result) violate(sig, what string, replay any) {
 		r.Counters = map[string]int{}
 	}
 	r.Counters["violations"]++
+}
+
+// tooMany reports that enough violations have been recorded: the remaining cases of a scenario are skipped (each failing
+// case may cost a long wait), the verdict is already certain.
+func (r *Result) tooMany() bool {
+	r.mu.Lock()
+	defer r.mu.Unlock()
+
+	return r.Counters["violations"] >= 6
 }
 
 func (r *Result) inconclusive(format string, a ...any) {
@@ -144,23 +154,44 @@ func readNDJSON[T any](path string) ([]T, error) {
 
 // collector stores hook events; every record gets "t" (UnixNano at arrival in the sink).
 type collector struct {
-	mu   sync.Mutex
-	cond *sync.Cond
-	recs []verifhook.Record
+	mu     sync.Mutex
+	cond   *sync.Cond
+	recs   []verifhook.Record
+	dpN    int   // number of data-plane events so far (never reset)
+	dpLast int64 // arrival time of the newest data-plane event
+}
+
+// isDataPlane: events of the datagram plane and of the harness's scripted peers; the periodic routing chatter is not.
+func isDataPlane(ev string) bool {
+	return strings.HasPrefix(ev, "dp_") || strings.HasPrefix(ev, "unr_") || strings.HasPrefix(ev, "h_") || strings.HasPrefix(ev, "pc_")
 }
 
 func installCollector() *collector {
 	c := &collector{}
 	c.cond = sync.NewCond(&c.mu)
 	verifhook.SetSink(func(r verifhook.Record) {
-		r["t"] = time.Now().UnixNano()
+		now := time.Now().UnixNano()
+		r["t"] = now
+		ev, _ := r["ev"].(string)
 		c.mu.Lock()
+		if isDataPlane(ev) {
+			c.dpN++
+			c.dpLast = now
+		}
 		c.recs = append(c.recs, r)
 		c.cond.Broadcast()
 		c.mu.Unlock()
 	})
 
 	return c
+}
+
+// dpCount returns the number of data-plane events seen so far.
+func (c *collector) dpCount() int {
+	c.mu.Lock()
+	defer c.mu.Unlock()
+
+	return c.dpN
 }
 
 func (c *collector) Len() int {
